@@ -434,10 +434,11 @@ def make_file_pair(rng, fmt, workdir, n=None, pos_cls=None, still_start=False, s
         for k in range(1, len(t_est)):
             if t_est[k] <= t_est[k - 1]:
                 t_est[k] = t_est[k - 1] + max(1e-4, 4 * float(np.spacing(t_est[k - 1])))
-    if fmt != "kitti" and dt > 0.05 and n >= 8 and rng.random() < .12:
+    if fmt != "kitti" and dt > 0.05 and n >= 8 and float(np.max(np.abs(ref["t"]))) < 1e10 and rng.random() < .12:
         # bursts: three estimate stamps compete for one reference stamp (far / closest / medium,
         # before and after it); with bursts at every reference stamp the estimate is the longer
-        # trajectory, with bursts at every fourth one the shorter
+        # trajectory, with bursts at every fourth one the shorter (stamps in seconds: millisecond
+        # offsets would vanish in nanosecond stamps and leave rows sharing one stamp)
         idx = np.repeat(np.arange(0, n, [1, 4, 4][rng.integers(3)]), 3)
         t_est = ref["t"][idx] + np.tile([[-0.008, -0.001, 0.005], [-0.005, 0.001, 0.008]][rng.integers(2)], len(idx) // 3)
     noise = (0.0 if rng.random() < .1 else 10.0**rng.uniform(-4, -0.5)) * ext
